@@ -163,8 +163,23 @@ func Go(f func()) {
 	runtime.RaceDisable()
 	<-started // the child is parked: the set of threads is always known to the scheduler
 	runtime.RaceEnable()
-	Point(KSpawn, nil)
+	if !quietSpawn {
+		Point(KSpawn, nil)
+	}
 }
+
+// Release points (after Unlock / WaitGroup.Done) and spawn points are redundant for data-race-free
+// code: a switch there is equivalent to a switch before the same thread's next synchronisation
+// operation, and the code in between is covered by the race detector. Harnesses whose schedule
+// space would otherwise explode switch them off (scheduling points then sit *before* every
+// acquiring / blocking operation, as in CHESS).
+var (
+	skipRelease bool
+	quietSpawn  bool
+)
+
+//go:norace
+func SetReducedPoints(on bool) { skipRelease, quietSpawn = on, on }
 
 // Free-running mode (no exploration active): goroutines spawned by instrumented code run
 // uncontrolled; with CaptureFreePanics a panic inside one is recorded instead of killing the process.
@@ -189,6 +204,9 @@ func TakeFreePanics() []string {
 //go:norace
 func Point(k Kind, obj any) {
 	if !active {
+		return
+	}
+	if skipRelease && (k == KUnlock || k == KWgDone) {
 		return
 	}
 	t := self()
@@ -388,10 +406,33 @@ func Run(root func(), prefix []int, maxPoints int) (x Exec) {
 	return x
 }
 
+func runCatch(root func(), prefix []int, maxPoints int) (x Exec, diverged string) {
+	defer func() {
+		if r := recover(); r != nil {
+			if d, ok := r.(ReplayDivergence); ok {
+				diverged = d.Msg
+				// the threads of the aborted execution run to completion free of control
+				for i := 0; i < nthreads; i++ {
+					if !threads[i].done {
+						threads[i].wake <- struct{}{}
+					}
+				}
+				joinWG.Wait()
+				return
+			}
+			panic(r)
+		}
+	}()
+	x = Run(root, prefix, maxPoints)
+	return
+}
+
 // ---- exploration ----
 
 type Stats struct {
 	Execs, Deadlocks, MaxPoints, MaxThreads int
+	Divergences                             int
+	LastDivergence                          string
 	Points                                  int64
 	Truncated                               bool
 }
@@ -422,7 +463,14 @@ func Explore(mk func() (root func(), check func(x Exec, owned bool)), o Options,
 			return
 		}
 		root, check := mk()
-		x := Run(root, prefix, o.MaxPoints)
+		x, diverged := runCatch(root, prefix, o.MaxPoints)
+		if diverged != "" {
+			// the same prefix no longer leads to the same enabled sets: the system keeps state between
+			// executions or has nondeterminism the harness does not own. Reported, subtree skipped.
+			st.Divergences++
+			st.LastDivergence = diverged
+			return
+		}
 		st.Execs++
 		st.Points += int64(len(x.Points))
 		if x.Deadlock {
